@@ -372,7 +372,7 @@ func runC18(c *run.Ctx) {
 			}
 			// one hostile candidate per good value and fragment (middle position)
 			for hi, hf := range hostileFrags {
-				for ci, cand := range []string{g[:len(g)/2] + hf + g[len(g)/2:], g + " " + hf, hf + " " + g, hf} {
+				for ci, cand := range []string{g[:len(g)/2] + hf + g[len(g)/2:], g + " " + hf, hf + " " + g, hf, "/* a */ " + hf + " /* b */ " + g} {
 					if ci == 3 && gi >= c.NShards {
 						continue // the fragment alone: once per shard is enough
 					}
